@@ -127,6 +127,25 @@ Section Engine.
 
   Fixpoint find_free_server (l : list server) : option server :=
     match l with [] => None | sv :: r => if sv_busy sv then find_free_server r else Some sv end.
+  (* find_free_server with a server_priority_function: sorted(servers, key) is stable, so the free server taken is the first
+     one (in list order) whose key is minimal *)
+  Definition spf_key (spf : Z) (cls : Z) (sv : server) : Z * Z :=
+    if spf =? 1 then (- sv_id sv, 0)
+    else if spf =? 2 then (sv_busy_time sv, sv_id sv)
+    else ((sv_id sv + cls) mod 2, sv_id sv).
+  Definition pair_lt (a b : Z * Z) : bool := (fst a <? fst b) || ((fst a =? fst b) && (snd a <? snd b)).
+  Fixpoint first_min_free (key : server -> Z * Z) (l : list server) (best : option server) : option server :=
+    match l with
+    | [] => best
+    | sv :: r =>
+      if sv_busy sv then first_min_free key r best
+      else match best with
+           | None => first_min_free key r (Some sv)
+           | Some b => if pair_lt (key sv) (key b) then first_min_free key r (Some sv) else first_min_free key r best
+           end
+    end.
+  Definition find_free_server_for (spf cls : Z) (l : list server) : option server :=
+    if spf =? 0 then find_free_server l else first_min_free (spf_key spf cls) l None.
   Fixpoint put_server_l (sv : server) (l : list server) : list server :=
     match l with [] => [] | y :: r => if sv_id y =? sv_id sv then sv :: r else y :: put_server_l sv r end.
   Fixpoint find_server (i : Z) (l : list server) : option server :=
@@ -494,7 +513,9 @@ Section Engine.
       | None => ret tt
       | Some c =>
         if inf then start_fresh j c None true
-        else match find_free_server (n_servers nd1) with
+        else
+          cx <- get_ind c ;;
+          match find_free_server_for (nc_spf nc) (i_cls cx) (n_servers nd1) with
              | Some sv => start_fresh j c (Some (sv_id sv)) true
              | None =>
                if 0 <? numo (n_c nd1) then
